@@ -274,5 +274,8 @@ class ZMQEventLoop(EventLoop):
                 self._did_something = True
 
         for queue in ready:
-            self._queue_callbacks[queue]()
+            callback = self._queue_callbacks.get(queue)
+            if callback is None:
+                continue  # removed by a callback that ran earlier in this batch
+            callback()
             self._did_something = True
